@@ -109,3 +109,22 @@ pub mod deser {
         serde_json::from_str(&serde_json::to_string(v).unwrap()).unwrap()
     }
 }
+
+#[cfg(feature = "par_iter")]
+pub mod par {
+    use indextree::Arena;
+    use rayon::prelude::*;
+    use std::marker::PhantomData;
+
+    /// shareable but not sendable (as if it held a lock guard): `par_iter` hands out `&Node<T>` only, so
+    /// `T: Sync` is all it needs — C17: "par_iter() visits exactly the nodes of iter()" for every such T
+    pub struct SyncOnly(pub u32, PhantomData<std::sync::MutexGuard<'static, ()>>);
+    pub fn count(a: &Arena<SyncOnly>) -> (usize, usize) {
+        (a.par_iter().filter(|n| !n.is_removed()).count(), a.iter().filter(|n| !n.is_removed()).count())
+    }
+    /// nothing but Sync: no Clone, Debug, PartialEq, Default
+    pub struct Bare(pub u32);
+    pub fn sum(a: &Arena<Bare>) -> u32 {
+        a.par_iter().map(|n| n.get().0).sum()
+    }
+}
